@@ -17,6 +17,13 @@ NA = {
 
 # property -> check description; filled in as units are built
 CHECKS = {
+    "C14": {
+        "category": "model_checking",
+        "technique": "bounded Kani harnesses on the real create_dir_all / ReadDir with a ghost path log and a scripted getdents64 buffer in the stub kernel; postcondition contracts over the log",
+        "text": "Bounded, partial: (a) create_dir_all for every path of 1..4 (thorough: 1..5) bytes over {a,/} — relative/absolute, single component, repeated and trailing separators — with every mkdir answer symbolic (created, EEXIST, ENOENT, any errno): Ok implies the kernel was asked to create the leaf and answered created-or-exists (so, by mkdir's contract, it and its ancestors exist), Err carries the last mkdir's errno; (b) ReadDir over a symbolic well-formed getdents64 buffer: each record yielded exactly once, in order, with exact NUL-terminated name and type, then end of stream. Only these two clauses of C14 are decided.",
+        "note": "NOT decided: content equality after write/read/copy, remove_dir_all's effect on the tree, symlinks, File::copy's loop (const fat pointer limit), paths > 5 bytes incl. the 512-byte heap path. Kernel semantics are not modelled beyond mkdir answers and the getdents64 record format.",
+        "design_ref": "§4.C14",
+    },
     "C13": {
         "category": "fault_enumeration",
         "technique": "Kani on the real Command::spawn with a ghost process role in the stub kernel (fork: error/child/parent, exec only fails, exit ends the path after an at-exit contract check); every syscall on both sides symbolically failing",
